@@ -51,6 +51,14 @@ def setQuadratic [Add R] [Zero R] (m : LBqm R) (u v : Label) (b : R) : Except Er
   let adj := adj.set v (((adj.get? v).getD []).set u b)
   .ok { d1 with adj }
 
+/-- `QuadraticViewsMixin.fix_variables(fixed)` on the dict back-end: `for v, val in fixed: fix_variable(v, val)`; the first
+    raising call ends the loop -/
+def fixVariables [Add R] [Mul R] [Zero R] (m : LBqm R) : List (Label × R) → Except Err (LBqm R)
+  | [] => .ok m
+  | p :: rest => match m.fixVariable p.1 p.2 with
+    | .ok m' => fixVariables m' rest
+    | .error e => .error e
+
 /-- insertion order of `_adj` and of every neighbourhood -/
 def rawOrder (m : LBqm R) : List (Label × List Label) := m.adj.map fun p => (p.1, p.2.map (·.1))
 
